@@ -45,7 +45,7 @@ IsNeg(q) == q[1] < 0
 Neg(q) == <<-q[1], q[2]>>
 
 \* total order: -inf < every finite value < +inf
-Lt(a, b) == IF a[2] = 0 /\ b[2] = 0 THEN a[1] < b[1] ELSE a[1] * b[2] < b[1] * a[2]
+Lt(a, b) == IF a[2] = b[2] THEN a[1] < b[1] ELSE a[1] * b[2] < b[1] * a[2]     \* equal denominators: no product needed
 Eq(a, b) == a = b                         \* canonical forms are unique
 Le(a, b) == Lt(a, b) \/ a = b
 Gt(a, b) == Lt(b, a)
@@ -62,6 +62,7 @@ MulDefined(a, b) == ~((IsZero(a) /\ IsInf(b)) \/ (IsInf(a) /\ IsZero(b)))  \* 0 
 Add(a, b) ==
   IF IsInf(a) THEN a
   ELSE IF IsInf(b) THEN b
+  ELSE IF a[2] = b[2] THEN Norm(a[1] + b[1], a[2])
   ELSE Norm(a[1] * b[2] + b[1] * a[2], a[2] * b[2])
 
 Sub(a, b) == Add(a, Neg(b))
